@@ -207,7 +207,7 @@ def digest_events(job, results):
 
 
 def cls_of(e):
-    if e["exc"] or e["len"] == 0:
+    if e["crashed"]:          # an exception ended the request (an empty directory legitimately lists as nothing)
         return 2
     return 1 if e["opened_w"] else 0
 
@@ -253,8 +253,8 @@ def oracle(life, events, snaps):
             continue
         t = e["tv"]
         key = e["key"]
-        if e["exc"] or e["len"] == 0:
-            bad.append(("unanswered", i, "listing request got no reply (exception %r)" % e["exc"]))
+        if e["crashed"]:
+            bad.append(("unanswered", i, "listing request got no reply (exception %r, log %r)" % (e["exc"], e["log"])))
             continue
         match = [s for s, refs in enumerate(snaps) if refs[key]["hash"] == e["hash"]]
         # (A) the listing reflects the directory as it was at most `life` ago
